@@ -13,6 +13,7 @@ THEOREMS = [
     ("EG.props.C01", "C01_rewrite_regexp"),
     ("EG.props.C01", "C01_rewrite_none"),
     ("EG.props.C01", "C01_dispatch_backend_and_path"),
+    ("EG.props.C01", "C01_body_limit"),
     ("EG.props.C01", "C01_unknown_backend_503"),
     ("EG.props.C01", "C01_match_all_header_semantics"),
     ("EG.props.C01", "C01_port_ignored"),
@@ -38,7 +39,8 @@ RULE = ("case = one HTTPServer spec (1-4 rules x 0-4 paths; exact/prefix/regexp 
         "cases the MuxMapper content changes between requests (pipelines deleted, re-created, replaced by a new handler identity) and "
         "requests recur; non-trivial = spec accepted by "
         "the real validation and >=1 request; class = 1 + bit set of observed outcome kinds "
-        "(200, 400, 405, 404, 503, 403, path rewritten, mapper changed during the history); distinct = distinct (group, input) hashes among non-trivial cases")
+        "(200, 400, 405, 404, 503, 403, path rewritten, mapper changed during the history, 413); requests carry bodies around the "
+        "path-/server-level clientMaxBodySize (declared and chunked), other wire encodings of the path, very deep paths (254-300 segments); distinct = distinct (group, input) hashes among non-trivial cases")
 TRUSTED_BASE = [
     "model coq/model/Mux.v is hand-written; tied to pkg/object/httpserver/mux.go by the per-run correspondence (sampled)",
     "oracles computed by the harness with the real libraries: Go regexp (MatchString/ReplaceAllString), IPFilter.Allow, "
@@ -95,11 +97,12 @@ def enc_server(i, sv=None, sidx=0):
                              pe_regexp=S(p.get("regexp") or ""), pe_methods=L([S(m) for m in p.get("methods") or []]),
                              pe_rewrite=S(p.get("rewrite") or ""), pe_backend=S(p.get("backend") or ""),
                              pe_headers=L(hs), pe_match_all=B(p.get("matchAll")),
-                             pe_filter=_fid(p.get("filter") is not None, base + 1000 * (ri + 1) + pj + 1)))
+                             pe_filter=_fid(p.get("filter") is not None, base + 1000 * (ri + 1) + pj + 1),
+                             pe_body=Z(p.get("bodyLimit") or 0)))
         rules.append(Rec(ru_host=S(r.get("host") or ""), ru_host_re=S(r.get("hostRegexp") or ""),
                          ru_filter=_fid(r.get("filter") is not None, base + 1000 * (ri + 1)), ru_paths=L(paths)))
     return Rec(sv_filter=_fid(sv.get("filter") is not None, base), sv_rules=L(rules),
-               sv_backends=L([S(b) for b in sv.get("backends") or []]))
+               sv_backends=L([S(b) for b in sv.get("backends") or []]), sv_body=Z(sv.get("bodyLimit") or 0))
 
 
 def enc_tabs(i):
@@ -113,7 +116,8 @@ def enc_reqs(i):
     out = []
     for rq, ro in zip(i.get("reqs") or [], i["oracle"].get("reqs") or []):
         out.append(Rec(rq_host=S(rq["host"]), rq_method=S(rq["method"]), rq_path=S(rq["path"]),
-                       rq_rawpath=S(rq.get("rawpath") or ""), rq_headers=L([T(S(k), S(v)) for k, v in ro.get("hdr") or []]), rq_ip=S(ro["realip"])))
+                       rq_rawpath=S(rq.get("rawpath") or ""), rq_headers=L([T(S(k), S(v)) for k, v in ro.get("hdr") or []]), rq_ip=S(ro["realip"]),
+                       rq_body=Z(rq.get("body") or 0)))
     return L(out)
 
 
